@@ -128,8 +128,8 @@ Theorem C10_spec_validation_room : forall scid dcid ipn lens single udpMin plans
   validateSpecT scid dcid ipn lens single udpMin plans maxPacket tokLen = true ->
   validateSpec scid dcid ipn lens single udpMin plans maxPacket = true /\
   let mh := maxHdrLen scid dcid lens single tokLen in
-  mh + 20 <= maxPacket /\
-  Forall (fun p => mh + 20 <= planLimit maxPacket p /\
+  mh + 27 <= maxPacket /\
+  Forall (fun p => mh + 27 <= planLimit maxPacket p /\
                    (0 < fst p -> mh + 1 + 4 + vlen (fst p) + fst p < planLimit maxPacket p - 16)) plans.
 Proof. exact t_C10_spec_validation_room. Qed.
 Print Assumptions C10_spec_validation_room.
@@ -139,7 +139,7 @@ Print Assumptions C10_spec_validation_room.
     was cut at 1241) and instances for all seven built-in fingerprints. *)
 Example C10_validation_room_regression :
   validateSpec 0 8 1 [] 1 0 [] 1280 = true /\ validateSpecT 0 8 1 [] 1 0 [] 1280 1300 = false /\
-  validateSpecT 0 8 1 [] 1 0 [] 1280 1240 = true /\
+  validateSpecT 0 8 1 [] 1 0 [] 1280 1240 = false /\ validateSpecT 0 8 1 [] 1 0 [] 1280 1233 = true /\
   validateSpec 0 8 1 [] 1 0 [(1300, 0)] 1280 = true /\ validateSpecT 0 8 1 [] 1 0 [(1300, 0)] 1280 0 = false /\
   validateSpecT 0 8 1 [] 1 0 [(1160, 1200)] 1280 0 = false /\
   validateSpecT 0 8 1 [1; 2] 0 0 [(999, 1200); (0, 1200)] 1280 70 = true /\
@@ -730,3 +730,23 @@ Theorem C10_accepted_datagram_ge_1200 : forall c scid dcid ipn lens single maxPa
   1200 <= dl.
 Proof. exact accepted_datagram_ge_1200. Qed.
 Print Assumptions C10_accepted_datagram_ge_1200.
+
+(** With the repaired room check (fixes/C10-validate-room-for-offset-varint.patch: validate demands
+    header + tag + 11 for the longest header the spec can produce) [margin] follows from dial's
+    validation: for a spec dial accepts, a per-datagram builder and a flight without a failing
+    datagram, the flight is non-empty and its CRYPTO ranges are contiguous from 0 and add up to the
+    whole ClientHello.  (_partial: [no_dgerr] remains a hypothesis.)  Regression for the stall:
+    ClientTokenLength 1240 on a 1280-byte connection is refused now, 1233 is the largest accepted
+    (C10_validation_room_regression). *)
+Theorem C10_accepted_flight_covers_hello_validated_partial :
+  forall c helloLen plens scid dcid ipn lens single udpMin maxPacket tokLen,
+  validateSpecT scid dcid ipn lens single udpMin (c_plans c) maxPacket tokLen = true ->
+  c_maxSize c = maxPacket -> (forall i, hdrOf c i <= maxHdrLen scid dcid lens single tokLen) ->
+  c_bk c <> BFlight -> 0 < helloLen ->
+  UFrames.ProofsOnWireFlight.no_dgerr (flight c helloLen plens) ->
+  let fs := concat (map UFrames.ProofsOnWireFlight.dg_frames (flight c helloLen plens)) in
+  flight c helloLen plens <> [] /\
+  UFrames.ProofsOnWire.rchain 0 fs /\ Forall UFrames.ProofsOnWire.range_pos fs /\
+  UDial.Retx.total_len fs = helloLen.
+Proof. exact accepted_flight_covers_hello_validated. Qed.
+Print Assumptions C10_accepted_flight_covers_hello_validated_partial.
